@@ -14,6 +14,15 @@ through the variadic one, called directly and below hide / bind / compose / trac
 reference a getter of compose() returns reaches the setter as that very object (no by-value local in between).  These
 probes are direct calls (a slot<T&(...)> cannot be called in the current code); they reuse the value/result model of
 the Adapt component (`c10` driver lines, theorem C11.bound_result_reference = C10.bound_result_identity).
+
+Member functors: the unbound `sigc::mem_fun(&Base::m)` called as `f(obj, args...)` is a target kind of its own — `Base` is
+the harness' `av::Obj`, `av::DObj` a class derived from it.  The object argument has static type `Obj`, `DObj` or
+`const DObj`, and reaches the member functor by a direct call, through a slot, through a signal emission (several slots:
+what one method writes the next one and the emitter must see), through adaptor chains and as a `std::ref` / `std::cref`
+object bound with `bind<0>`.  Observed: `this` of the method (it must be the passed object, parameter 0 of the record),
+values, copy/move counters (zero copies).  Model: `OExpr.mleaf`, whose object parameter follows the rows
+`memFunctorExact` / `memFunctorDerived` of `paramKind` (by reference); theorems mem_functor_object_identity and
+mem_functor_byvalue_witness.
 """
 import json
 import os
@@ -31,13 +40,17 @@ REQUIRED = ["Sigc.C11.ref_identity", "Sigc.C11.bound_ref_identity", "Sigc.C11.va
             "Sigc.C11.result_not_defaulted", "Sigc.C11.f5_witness", "Sigc.C11.rref_witness",
             "Sigc.C11.rref_forwarders", "Sigc.C11.paramKind_forwarding", "Sigc.C11.passKind_rows",
             "Sigc.C11.compose2_getters_intact", "Sigc.C11.compose2_forward_witness",
-            "Sigc.C11.bound_result_reference", "Sigc.C11.getter_result_reaches_setter"]
+            "Sigc.C11.bound_result_reference", "Sigc.C11.getter_result_reaches_setter",
+            "Sigc.C11.mem_functor_object_identity", "Sigc.C11.mem_functor_byvalue_witness"]
 TRUSTED = [
     "Lean 4.33.0 kernel (thorough: leanchecker); axioms per theorem as audited by #print axioms",
     "the hand-written object model lean/Sigc/Adapt.lean part 4 (Heap, enterArg, tupleElem, takeParam, castTo, "
     "leafInit/leafBody, ONode.args, callO, emitVoidO/emitValueO) and its tables paramKind : AdaptorKind -> "
-    "byValue | forwardingRef and passKind : AdaptorKind -> forward | named: tied to sigc++/adaptors/*.h, type_traits.h, functors/slot.h, signal.h, "
-    "bound_argument.h, limit_reference.h only by the sampled correspondence below",
+    "byValue | forwardingRef and passKind : AdaptorKind -> forward | named (the rows memFunctorExact / memFunctorDerived: "
+    "how mem_functor::operator() takes its object argument, per static type of that argument): tied to "
+    "sigc++/adaptors/*.h, type_traits.h, functors/slot.h, functors/mem_fun.h, signal.h, "
+    "bound_argument.h, limit_reference.h only by the sampled correspondence below; the flag `derived` of a member-functor "
+    "target (static type of the object argument that reaches it) is computed by the generator",
     "IdealC11 (Python) as the reading of the property statement",
     "generator, harness/adapt_support.h (Obj: identity by address, copy/move constructors that count and record "
     "their source), g++ 12, libstdc++ (std::tuple, std::apply, std::invoke, std::reference_wrapper), ASan/UBSan",
@@ -53,6 +66,9 @@ ASSUMPTIONS = [
     "bind/hide directly inside a slot cannot keep a T&& element (std::tuple<T&&> from a const tuple); both are "
     "compile-time rejections, outside C11",
     "generated functors never destroy a trackable they are bound to (finding F6 is out of scope of C11)",
+    "member functors: unbound mem_fun(&Obj::meth) of non-volatile (const or non-const) member functions, the object "
+    "argument an lvalue of static type Obj / DObj (single, non-virtual inheritance); no T&& positions in those cases; "
+    "retype() is not applied to an unbound member functor (it has no T_type for the object)",
 ]
 PARTIAL = [
     "T&& parameters (finding F8): C11.ref_identity is proved for positions declared T, T&, const T& through every "
@@ -132,6 +148,53 @@ def build_cases(ctx):
         # rvalue-reference parameters into compose(s, g1, g2): both getters must get the named parameter (copies)
         for _ in range(8):
             cases.append(one("r", rng.below(3), 1 + rng.below(2), 1 + rng.below(3), "C2"))
+    return cases
+
+
+MEM_KINDS = ["Bi", "B", "Hi", "H", "SL", "C2", "RR", "HR", "BR", "EC", "TO", "C1"]
+
+
+def build_mem_cases(ctx):
+    """unbound member functors sigc::mem_fun(&av::Obj::meth) as targets; object argument of static type Obj / DObj /
+    const DObj; routes direct / slot / signal; bound with bind<0>(..., std::ref / std::cref / a copy)"""
+    rng = ctx.rng
+    g = ag.GenC11(rng)
+    cases = []
+    reps = 6 if ctx.thorough else 1
+
+    def add(c, fam):
+        c["origin"] = "gen:mem:" + fam
+        cases.append(c)
+
+    for _ in range(reps):
+        i = 0
+        for cls0 in "db":
+            for objk in "lcv":
+                for route in "DSG":
+                    if route == "D" and objk == "v":
+                        continue
+                    i += 1
+                    extra = rng.below(3)
+                    sig = objk + "".join(rng.choice("vlc" if route != "D" else "lc") for _ in range(extra))
+                    cls = cls0 + "".join(rng.choice("bd") for _ in range(extra))
+                    ns = (1 + rng.below(2)) if route == "G" else 1
+                    chains = []
+                    for sl in range(ns):
+                        d = [0, 1, 1, 2][(i + sl) % 4]
+                        chains.append([rng.choice(MEM_KINDS) for _ in range(d)])
+                    add(g.mem_case(sig, cls, route, chains), "arg")
+        # the object bound with bind<0>(mem_fun(&Obj::meth), std::ref(o) / std::cref(o) / o)
+        for cls0 in "db":
+            for bk in "rcv":
+                for route in "DSG":
+                    i += 1
+                    extra = rng.below(3)
+                    sig = "".join(rng.choice("vlc" if route != "D" else "lc") for _ in range(extra))
+                    cls = "".join(rng.choice("bd") for _ in range(extra))
+                    outer = [rng.choice(["H", "HR", "TO", "EC", "RR", "SL"])] if i % 3 == 0 else []
+                    ch = outer + [("Bi", 0, (bk, cls0))] + ([rng.choice(["TO", "EC", "HR"])] if i % 4 == 0 else [])
+                    chains = [ch] + ([[rng.choice(MEM_KINDS)]] if route == "G" and extra and rng.chance(0.5) else [])
+                    add(g.mem_case(sig, cls, route, chains), "bound")
     return cases
 
 
@@ -256,9 +319,16 @@ def evaluate(cases, per_tu, probes=None):
 
 
 def cxx_of(c):
-    return "signal<%s(%s)> with slots [%s]" % ("void" if c["kind"] == "V" else "int",
-                                               ", ".join(ag.PK_CXX[k] for k in c["sig"]),
-                                               " ; ".join(ag.ExprC11.cxx(s) for s in c["slots"]))
+    sigt = "%s(%s)" % ("void" if c["kind"] == "V" else "int",
+                       ", ".join(ag.pk_cxx(k, q) for k, q in zip(c["sig"], ag.c11_cls(c))))
+    route = c.get("route", "G")
+    if route == "D":
+        return "direct call %s(%s)" % (ag.ExprC11.cxx(c["slots"][0]),
+                                       ", ".join("%s lvalue" % ag.pk_cxx(k, q).replace("&", "")
+                                                 for k, q in zip(c["sig"], ag.c11_cls(c))))
+    if route == "S":
+        return "slot<%s> holding %s, called" % (sigt, ag.ExprC11.cxx(c["slots"][0]))
+    return "signal<%s> with slots [%s]" % (sigt, " ; ".join(ag.ExprC11.cxx(s) for s in c["slots"]))
 
 
 def classify(cases, results):
@@ -374,7 +444,7 @@ _RTMOD = _RT
 
 def correspondence(ctx):
     corpus = load_corpus()
-    gen = build_cases(ctx)
+    gen = build_cases(ctx) + build_mem_cases(ctx)
     cases = corpus + gen
     probes = build_probes(ctx)       # result references: direct-call probes, built together with the signal cases
     per_tu = 20 if ctx.thorough else max(8, (len(cases) + len(probes) + common.NCPU - 1) // common.NCPU)
@@ -400,7 +470,10 @@ def correspondence(ctx):
         dis = [shrink(dis[0], "dis")] + dis[1:]
     dist = {"signal_kind": {}, "declared_kind_by_position": {}, "slots": {}, "chain_depth": {}, "adaptor_kinds": {},
             "bound_kinds": {}, "target_param_kinds": {}, "corpus_cases": len(corpus), "edge_stream": len(edge),
-            "known_finding_region_cases": 0}
+            "known_finding_region_cases": 0,
+            "member_functor": {"cases": 0, "object_static_type": {"Obj": 0, "DObj": 0}, "const_method": 0,
+                               "route": {"D": 0, "S": 0, "G": 0}, "object_bound_with": {"std::ref": 0, "std::cref": 0, "copy": 0},
+                               "below_adaptor": 0}}
     distinct = set()
     for c, r in zip(cases, results):
         dist["signal_kind"][c["kind"]] = dist["signal_kind"].get(c["kind"], 0) + 1
@@ -420,6 +493,19 @@ def correspondence(ctx):
             nontrivial = nontrivial or bool(ks)
         if ag.c11_f7(c):
             dist["known_finding_region_cases"] += 1
+        mts = [t for s_ in c["slots"] for t in ag.c11_member_targets(s_)]
+        if mts:
+            mf = dist["member_functor"]
+            mf["cases"] += 1
+            mf["route"][c.get("route", "G")] += 1
+            for (m, below, bk) in mts:
+                mf["object_static_type"]["DObj" if m[2] else "Obj"] += 1
+                mf["const_method"] += 1 if m[3] else 0
+                mf["below_adaptor"] += 1 if below else 0
+                if bk:
+                    mf["object_bound_with"][{"r": "std::ref", "c": "std::cref", "v": "copy"}[bk]] += 1
+            if r["impl"] and not r["impl"].startswith(("crash", "nocompile")):
+                distinct.add(r["line"])
         if (nontrivial or len(c["slots"]) > 1) and r["impl"] and not r["impl"].startswith(("crash", "nocompile")):
             distinct.add(r["line"])
     dist["translation_units"] = {"compiled": b.compiled, "cached": b.cached}
